@@ -8,11 +8,11 @@ import os
 import re
 import subprocess
 
-from engine import cc
+from engine import facts, cc
 from engine.facts import AnalysisBroken, INCLUDE, REPO, VERIF, CACHE
 from witness import c19gen
 
-GEN = os.path.join(CACHE, "gen")
+GEN = facts.gen_dir()
 
 
 def configs(tier):
